@@ -36,9 +36,10 @@ def main():
         if a.only:
             import re
             ctx.jobs = [j for j in ctx.jobs if re.search(a.only, j.name)]
-        summaries = ctx.execute(workers=a.workers)
+        xh = mod.xh(ctx) if hasattr(mod, "xh") and not a.only else None
+        summaries = ctx.execute(workers=a.workers) if ctx.jobs else []
         extra = mod.post(ctx, summaries) if hasattr(mod, "post") else None
-        return report.finish(ctx, summaries, extra_coverage=extra)
+        return report.finish(ctx, summaries, extra_coverage=extra, xh=xh)
     finally:
         shutil.rmtree(work, ignore_errors=True)
 
